@@ -3,6 +3,7 @@ package engine
 import (
 	"net/http"
 	"strings"
+	"sync"
 	"sync/atomic"
 	"time"
 
@@ -338,10 +339,20 @@ func (bs *baseServer) Handshake(transportName string, ctx *types.HttpContext) (*
 	bs.clients.Store(id, socket)
 	bs.clientsCount.Add(1)
 
-	socket.Once("close", func(...any) {
-		bs.clients.Delete(id)
-		bs.clientsCount.Add(^uint64(0))
-	})
+	var unregister sync.Once
+	remove := func() {
+		unregister.Do(func() {
+			bs.clients.Delete(id)
+			bs.clientsCount.Add(^uint64(0))
+		})
+	}
+	socket.Once("close", func(...any) { remove() })
+	// The session may have closed before this listener existed (its peer went
+	// away, its transport failed): that close event is gone, take the session
+	// out of the table now.
+	if socket.ReadyState() == "closed" {
+		remove()
+	}
 
 	bs.Emit("connection", socket)
 
